@@ -356,8 +356,19 @@ theorem stepCreate_ok {s s' : State} {id sender to coins lock ts tl transfer}
   split at h; · cases h
   rename_i hbl
   split at h; · cases h
+  split at h; · cases h
   rename_i hc
   exact ⟨by simpa using hvb, by simpa using hbl, contains_false (by simpa using hc), h⟩
+
+/-- the escrow account itself is never accepted as recipient (msg_server.go guard) -/
+theorem stepCreate_to {s s' : State} {id sender to coins lock ts tl transfer}
+    (h : stepCreate s id sender to coins lock ts tl transfer = .ok s') : to ≠ escrow := by
+  unfold stepCreate at h
+  split at h; · cases h
+  split at h; · cases h
+  split at h; · cases h
+  rename_i hto
+  exact hto
 
 /-- the two successful branches of `createHTLT` -/
 theorem createHTLT_ok {s s' : State} {id sender to coins lock ts tl}
